@@ -24,8 +24,8 @@ def replay(h, res, pid, kani_cmd, sh, verif, logs, env):
     stamp = time.strftime("%Y%m%d-%H%M%S")
     base = os.path.join(verif, "replays", "%s-%s-%s" % (pid, h["harness"].split("::")[-1], stamp))
     log = base + ".kani.log"
-    rc, to = sh(kani_cmd(h, "-Z concrete-playback --concrete-playback=print"), log,
-                max(3 * h["timeout"], 1800), os.path.join(verif, h["crate"]))
+    rc, to = sh(kani_cmd(h, "-Z concrete-playback --concrete-playback=print", slot=0), log,
+                max(3 * h["timeout"], 1800), os.path.join(verif, h["crate"]), h.get("guard", True))
     text = open(log, errors="replace").read()
     def check_msg(t):
         m = re.search(r"/// Check for `[^`]*`: (.*)", t)
@@ -38,7 +38,7 @@ def replay(h, res, pid, kani_cmd, sh, verif, logs, env):
     tests.sort(key=lambda t: 0 if "[replayable]" in check_msg(t) else 1)
     tests = tests[:3]
     rec = dict(property=pid, harness=h["harness"], crate=h["crate"], failed=res["failed"],
-               tests=tests, kani_flags=h.get("kani_flags", ""))
+               tests=tests, kani_flags=h.get("kani_flags", ""), guard=h.get("guard", True))
     path = base + ".json"
     if not tests:
         rec["note"] = "Kani produced no concrete playback test"
@@ -77,7 +77,7 @@ def run_tests(rec, verif, sh, logs):
             # one test per process: the shim state is process-global
             cmd = ("cargo kani playback -Z concrete-playback %s -- %s --nocapture --test-threads=1"
                    % (profile, name))
-            sh(cmd, log, 1200, scratch)
+            sh(cmd, log, 1200, scratch, rec.get("guard", True))
             out = open(log, errors="replace").read()
             m = re.search(r"panicked at [^\n]*\n([^\n]*)", out)
             if m and m.group(1).lstrip('"').startswith(pid + ":"):
